@@ -84,7 +84,7 @@ def theorems_in(path):
         m = re.match(r'\s*end\s+([\w.]+)', line)
         if m and ns and ns[-1] == m.group(1):
             ns.pop(); continue
-        m = re.match(r'\s*(?:private\s+|protected\s+)?theorem\s+([\w.\']+)', line)
+        m = re.match(r'\s*(?:private\s+|protected\s+)?theorem\s+([\w.\'?!₀-₉]+)', line)
         if m:
             names.append('.'.join(ns + [m.group(1)]))
     return names
